@@ -51,6 +51,29 @@ def main(argv=None) -> int:
         mod.run(ctx)
         if tier == "thorough" and hasattr(mod, "run_thorough"):
             mod.run_thorough(ctx)
+        if tier == "thorough" and only is None and not any(i.status == "VIOLATED" for i in ck.instances):
+            # self-test of the checker, both ways (DESIGN section 6): seeded breaking variants must be reported by the
+            # obligation they name, behaviour-preserving twins must stay silent.  Scratch copies only, analysed never run.
+            from sa.selftest import run_selftest
+
+            st = run_selftest(prop, args.repo, seed=seed, verbose=False)
+            killed = [v for v in st["variants"] if v[1] == "killed"]
+            skipped = [v for v in st["variants"] if v[1] == "skipped"]
+            survived = [v for v in st["variants"] if v[1] == "SURVIVED"]
+            noisy = [t for t in st["twins"] if t[1] == "NOISY"]
+            ck.extra_coverage["selftest"] = {
+                "baseline": st["baseline"],
+                "variants_applied": len(st["variants"]) - len(skipped),
+                "variants_killed": len(killed),
+                "variants_skipped": [v[0] for v in skipped],
+                "variants_survived": [v[0] for v in survived],
+                "twins": [{"kind": t[0], "result": t[1]} for t in st["twins"]],
+                "variant_samples": [{"name": v[0], "expected_rule": v[3], "fired": v[2]} for v in killed[:8]],
+            }
+            for v in survived:
+                ck.unknown("selftest", f"seeded breaking variant not detected: {v[0]!r} (expected {v[3]}): {v[2][:200]}")
+            for t in noisy:
+                ck.unknown("selftest", f"behaviour-preserving twin `{t[0]}` raised an alarm: {t[2][:200]}")
         ck.stats.update(ctx.stats())
         rc = ck.finish(mod.EXPLANATION, TRUSTED_BASE + list(getattr(mod, "TRUSTED", [])))
     except AnalysisError as e:
